@@ -14,21 +14,24 @@ Definition w_d19_schema : schema :=
   [mkTable "t" None [pcol "id" (TSimple Integer) false; pcol "name" (TSimple Text) true] [CPrimaryKey true ["id"]]].
 Definition w_d19_action : action := ModifyColumnComment "t" "id" (Some "x").
 
-Lemma autoincrement_lost : 
+(* History: before fix N1 this witness lost AUTO_INCREMENT (the MODIFY was `id` int NOT NULL COMMENT 'x'; the engine
+   ended with col_auto = Some false against Some true in the baseline; lemma autoincrement_lost, finding
+   C04-autoinc-lost-on-modify).  Now the MODIFY restates it and the migration holds. *)
+Lemma autoincrement_kept :
   judged w_d19_schema [w_d19_action] = true /\
   modify_target w_d19_action = Some ("t", "id") /\ is_auto_col w_d19_schema "t" "id" = true /\
   gen w_d19_schema [] w_d19_action
-    = Ok [SModifyColumn "t" (mkColDef "id" "int" true None false false (Some "x"))] /\
+    = Ok [SModifyColumn "t" (mkColDef "id" "int" true None false true (Some "x"))] /\
   match gen_plan w_d19_schema [w_d19_action], apply_all w_d19_schema [w_d19_action] with
   | Ok L, Ok s' =>
       match run (catalog_of w_d19_schema) (List.concat L) with
-      | RunOk c => col_auto (catalog_of w_d19_schema) "t" "id" = Some true /\ col_auto c "t" "id" = Some false /\
+      | RunOk c => col_auto (catalog_of w_d19_schema) "t" "id" = Some true /\ col_auto c "t" "id" = Some true /\
                    col_auto (catalog_of s') "t" "id" = Some true
       | RunErr _ _ => False
       end
   | _, _ => False
   end /\
-  migration_ok w_d19_schema [w_d19_action] = false /\ known_C04_autoinc_lost w_d19_schema [w_d19_action] = true.
+  migration_ok w_d19_schema [w_d19_action] = true /\ in_known_class w_d19_schema [w_d19_action] = false.
 Proof. vm_compute. repeat split; reflexivity. Qed.
 
 (* ModifyColumnType to an enum re-quotes a kept non-string default *)
@@ -51,15 +54,18 @@ Lemma modify_type_requotes :
   end.
 Proof. vm_compute. repeat split; reflexivity. Qed.
 
-(* comments: the next MODIFY of any other kind erases the comment *)
+(* comments: the next MODIFY of any other kind restates the comment (escaped by sea-query: the quote of "it's" becomes
+   backslash-quote, where modify_column_comment.rs doubles it).  History: before fix N1 the second MODIFY carried no
+   COMMENT and erased it (lemma comment_lost, finding C04-comment-lost-on-modify). *)
 Definition w_comment_schema : schema :=
   [mkTable "t" None [pcol "id" (TSimple Integer) false; pcol "name" (TSimple Text) true] [CPrimaryKey false ["id"]]].
-Lemma comment_lost :
-  match gen_plan w_comment_schema [ModifyColumnComment "t" "name" (Some "note"); ModifyColumnDefault "t" "name" (Some "'x'")],
-        apply_all w_comment_schema [ModifyColumnComment "t" "name" (Some "note"); ModifyColumnDefault "t" "name" (Some "'x'")] with
+Lemma comment_kept :
+  match gen_plan w_comment_schema [ModifyColumnComment "t" "name" (Some "it's"); ModifyColumnDefault "t" "name" (Some "'x'")],
+        apply_all w_comment_schema [ModifyColumnComment "t" "name" (Some "it's"); ModifyColumnDefault "t" "name" (Some "'x'")] with
   | Ok [[SModifyColumn _ d1]; [SModifyColumn _ d2]], Ok s' =>
-      cd_comment d1 = Some "note" /\ cd_comment d2 = None /\
-      option_map c_comment (lookup_column s' "t" "name") = Some (Some "note")
+      cd_comment d1 = Some "it''s" /\ cd_comment d2 = Some "it\'s" /\
+      option_map mysql_unescape (cd_comment d1) = Some "it's" /\ option_map mysql_unescape (cd_comment d2) = Some "it's" /\
+      option_map c_comment (lookup_column s' "t" "name") = Some (Some "it's")
   | _, _ => False
   end.
 Proof. vm_compute. repeat split; reflexivity. Qed.
